@@ -559,3 +559,55 @@ func VOffsetOpenRaw(path Path64, groupDelta float64, jt JoinType, et EndType, mi
 	}
 	return sol
 }
+
+// VIxEdge is what buildIntersectList / processIntersectList read of an active edge.
+type VIxEdge struct{ Bot, Top Point64 }
+
+// VDoIntersections links edges (leftmost first) into an active-edge list of cold closed subject edges,
+// runs the real buildIntersectList(topY) and, when it reports intersections, the real
+// processIntersectList. It returns the x of every edge at topY, the intersect nodes in the order they
+// were added (edge indices and point), the sorted edge list after the merge sort, the nodes in the order
+// they were processed and the active-edge list afterwards (as edge indices).
+func VDoIntersections(edges []VIxEdge, botY, topY int64) (curX []int64, nodes [][2]int, pts Path64, sel []int, done [][2]int, ael []int) {
+	c := newClipperBase()
+	c.fillRule = EvenOdd
+	c.clipType = Intersection
+	c.currentBotY = botY
+	idx := map[*Active]int{}
+	var prev *Active
+	for i, e := range edges {
+		a := &Active{bot: e.Bot, top: e.Top, curX: e.Bot.X, dx: getDx(e.Bot, e.Top), windDx: 1,
+			localMin: &LocalMinima{Vertex: &Vertex{pt: e.Bot}, PolyType: Subject}}
+		idx[a] = i
+		a.prevInAEL = prev
+		if prev != nil {
+			prev.nextInAEL = a
+		} else {
+			c.actives = a
+		}
+		prev = a
+	}
+	found := c.buildIntersectList(topY)
+	for a := c.actives; a != nil; a = a.nextInAEL {
+		curX = append(curX, a.curX)
+	}
+	for _, n := range c.intersectList {
+		nodes = append(nodes, [2]int{idx[n.edge1], idx[n.edge2]})
+		pts = append(pts, n.pt)
+	}
+	if c.actives != nil && c.actives.nextInAEL != nil {
+		for a := c.sel; a != nil; a = a.nextInSEL {
+			sel = append(sel, idx[a])
+		}
+	}
+	if found {
+		c.processIntersectList()
+		for _, n := range c.intersectList {
+			done = append(done, [2]int{idx[n.edge1], idx[n.edge2]})
+		}
+	}
+	for a := c.actives; a != nil; a = a.nextInAEL {
+		ael = append(ael, idx[a])
+	}
+	return
+}
